@@ -240,6 +240,25 @@ def run_case_inner(case, root: Path):
             return dict(kind='ok', val=show_val(d.Tokenizer.tokenize(case['expr'])))
         except d.CompilationError as e:
             return dict(kind='cerr', cls=type(e).__name__)
+    if op == 'lex':
+        # the token list of the character scanner (Tokenizer.__convert_string), before tree building and evaluation
+        from ducklingscript.compiler.tokenization.tokenizer import Tokenizer, SolveData
+        from ducklingscript.compiler.environments.environment import Environment
+        env = Environment()
+        for n, v in case.get('vars') or []: env.var.new_var(n, v)
+        try:
+            t = Tokenizer(None, env, case['expr'])
+            obj = SolveData()
+            t._Tokenizer__convert_string(obj)
+        except d.CompilationError as e:
+            return dict(kind='cerr', cls=type(e).__name__)
+        toks = []
+        for tok in obj.parse_list:
+            cn = type(tok).__name__
+            if cn == 'Tokenizer': toks.append([cn, tok.value, bool(tok.is_opposite)])
+            elif cn.endswith('Operator'): toks.append([cn, tok.value])
+            else: toks.append([cn, show_val(tok.value)])
+        return dict(kind='ok', toks=toks)
     if op == 'history':
         # a sequence of compilations in this process; results of all steps
         comps = {}
